@@ -193,7 +193,11 @@ def extra_verdicts(genfn, nq, nt):
             for k, v in c.get('desc', {}).items():
                 dist[f'{k}={v}'] = dist.get(f'{k}={v}', 0) + 1
             accepted = rc == 0
-            if 'expect_error' in c:
+            if 'expect_only_error' in c:
+                errs = [d for d in diags if d['level'] == 'error']
+                good = (not accepted) and errs and all(any(t in d['message'] for t in c['expect_only_error']) for d in errs)
+                want = 'refused with errors of derive_ex only (the item itself still there): ' + ' / '.join(c['expect_only_error'])
+            elif 'expect_error' in c:
                 good = (not accepted) and any(c['expect_error'] in d['message'] for d in diags)
                 want = 'refused by derive_ex with: ' + c['expect_error']
             else:
@@ -480,6 +484,8 @@ PROPS.update({
         labels=r'^item$',
         l1_is_concrete=('tokens', 'class'),
         l1_concrete_text='the re-emitted item differs from the input minus the documented derive_ex-owned attributes (the model, proved equal to docStrip*)',
+        extra=extras(extra_programs(l2gen.gen_c14_program, 120, 2400, what='foreign content of the annotated item did not survive the attribute macro'),
+                     extra_verdicts(l2gen.gen_c14_error_case, 48, 600)),
     ),
     'C15': dict(
         theorems=[('DeriveExModel.Props.Tables', ['DX.isMatch_table_model', 'DX.isMatch_table_doc', 'DX.isMatch_table_complete']), (CMP + 'C15', ['DX.entry_equiv_struct', 'DX.entry_equiv_enum', 'DX.entry_equiv_segments_struct',
